@@ -4,6 +4,7 @@ package verifhook
 
 import (
 	"runtime"
+	"runtime/debug"
 	"sync"
 	"time"
 	"unsafe"
@@ -41,12 +42,12 @@ type LConfig struct {
 }
 
 type LResult struct {
-	Steps     int
-	Switches  int
-	Trace     []uint32 // task<<20 | site at every context switch
-	Aborted   bool
-	Forced    int // switches forced at targeted sites
-	PerTask   []int
+	Steps       int
+	Switches    int
+	Trace       []uint32 // task<<20 | site at every context switch
+	Aborted     bool
+	Forced      int // switches forced at targeted sites
+	PerTask     []int
 	Interleaved bool // at least two tasks each ran a step between another task's first and last step
 	// Stalls counts how often the turn holder made no progress for stallAfter
 	// (it was blocked in a real synchronisation primitive of the code under
@@ -317,6 +318,13 @@ func startL() {
 // RunL executes the scripts as simulated tasks under scheduler L and returns
 // when all of them have finished. The caller must have set GOMAXPROCS(1).
 func RunL(scripts []func(), cfg LConfig) LResult {
+	// The collector decides when a sync.Pool loses its contents, and with that
+	// which branch pooled code takes: collect twice now (a pool is empty after
+	// two cycles) and not again until the tasks are done, so that a run's yield
+	// sequence does not depend on allocation timing.
+	runtime.GC()
+	runtime.GC()
+	defer debug.SetGCPercent(debug.SetGCPercent(-1))
 	setupL(len(scripts), cfg)
 	var wg sync.WaitGroup
 	for i := range scripts {
